@@ -14,7 +14,7 @@ use std::sync::Mutex;
 use vcommon::evidence::{catch, h64, Violation};
 use vcommon::refscale::PType;
 
-pub const BUILDER_VALUES: usize = 11;
+pub const BUILDER_VALUES: usize = 13;
 
 fn prim(p: scale_info::TypeDef<PortableForm>, path: &[&str], docs: &[&str], params: Vec<TypeParameter<PortableForm>>) -> PType {
     lit::ty(
@@ -52,6 +52,13 @@ fn builder_value(k: usize, model: &[PType]) -> PType {
         8 => prim(lit::primitive(scale_info::TypeDefPrimitive::U8), &[], &["d", ""], vec![]),
         // same non-empty path as value 6, different definition
         10 => prim(lit::primitive(scale_info::TypeDefPrimitive::Bool), &["p"], &[], vec![]),
+        // an enum whose variants are listed out of index order, and the same variants listed in index order:
+        // two different values (the listing order is part of the description)
+        11 | 12 => {
+            let v = |n: &str, i: u8| lit::variant(n.to_string(), vec![], i, vec![]);
+            let vs = if k == 11 { vec![v("Transfer", 3), v("Mint", 0), v("Burn", 1)] } else { vec![v("Mint", 0), v("Burn", 1), v("Transfer", 3)] };
+            lit::ty(path_of(["Call".to_string()]), vec![], lit::variants(vs), vec![])
+        }
         // forward reference two ahead of the id this value will get (dangling until two more values follow)
         _ => lit::ty(
             path_of(["Fwd".to_string()]),
@@ -62,7 +69,7 @@ fn builder_value(k: usize, model: &[PType]) -> PType {
     }
 }
 
-const VALUE_NAMES: [&str; BUILDER_VALUES] = ["u8", "bool", "seq(0)", "composite{me: next_type_id()}", "tuple(last id)", "u8+docs[d]", "u8+path[p]", "u8+param[T]", "u8+docs[d,\"\"]", "composite{ahead: next_type_id()+2, next: next_type_id()+1}", "bool+path[p]"];
+const VALUE_NAMES: [&str; BUILDER_VALUES] = ["u8", "bool", "seq(0)", "composite{me: next_type_id()}", "tuple(last id)", "u8+docs[d]", "u8+path[p]", "u8+param[T]", "u8+docs[d,\"\"]", "composite{ahead: next_type_id()+2, next: next_type_id()+1}", "bool+path[p]", "enum Call[Transfer#3, Mint#0, Burn#1]", "enum Call[Mint#0, Burn#1, Transfer#3]"];
 
 /// replay a builder history against the Vec model; returns Debug key and first failure
 pub fn eval_builder(hist: &[u8]) -> (String, Option<(String, String)>) {
